@@ -121,7 +121,11 @@ NoRef == [t |-> "", a |-> "", r |-> "", k |-> 0]
 VRef(a, r) == [t |-> "v", a |-> a, r |-> r, k |-> 0]
 WRef(r)    == [t |-> "w", a |-> "", r |-> r, k |-> 0]
 NRef(k)    == [t |-> "n", a |-> "", r |-> "", k |-> k]
-P0 == [res |-> "", amt |-> 0, ids |-> {}, ref |-> NoRef]
+\* a proof: resource, evidenced amount / ids, and its evidence: the containers it locked, in order, each with the part locked there
+\* (one entry for a proof made from a vault or bucket; one entry per container for a proof composed by the auth zone)
+P0 == [res |-> "", amt |-> 0, ids |-> {}, ev |-> <<>>]
+EvE(ref, n, ids) == [ref |-> ref, amt |-> n, ids |-> ids]
+Plain(r, n, ids, ref) == [res |-> r, amt |-> n, ids |-> ids, ev |-> <<EvE(ref, n, ids)>>]
 GoneB == [live |-> FALSE, res |-> "", c |-> C0]
 GoneP == [live |-> FALSE, p |-> P0]
 W0 == [on |-> FALSE, c |-> C0]
@@ -142,9 +146,10 @@ SetC(S, ref, c) == CASE ref.t = "v" -> [S EXCEPT !.vault[ref.a][ref.r] = c]
                      [] ref.t = "w" -> [S EXCEPT !.wt[ref.r].c = c]
                      [] ref.t = "n" -> [S EXCEPT !.nb[ref.k].c = c]
 \* the bucket node moves (name table <-> worktop): the proofs on it follow
+RenP(p, from, to) == [p EXCEPT !.ev = [j \in DOMAIN p.ev |-> IF p.ev[j].ref = from THEN [p.ev[j] EXCEPT !.ref = to] ELSE p.ev[j]]]
 Rename(S, from, to) ==
-  [S EXCEPT !.np = [i \in DOMAIN S.np |-> IF S.np[i].p.ref = from THEN [S.np[i] EXCEPT !.p.ref = to] ELSE S.np[i]],
-            !.az = [i \in DOMAIN S.az |-> IF S.az[i].ref = from THEN [S.az[i] EXCEPT !.ref = to] ELSE S.az[i]]]
+  [S EXCEPT !.np = [i \in DOMAIN S.np |-> [S.np[i] EXCEPT !.p = RenP(@, from, to)]],
+            !.az = [i \in DOMAIN S.az |-> RenP(S.az[i], from, to)]]
 
 WtTotal(S, r) == IF S.wt[r].on THEN Total(r, S.wt[r].c) ELSE 0
 
@@ -162,7 +167,22 @@ MoveOut(S, r) ==
   LET k == Len(S.nb) + 1
   IN Rename([NewBucket(S, r, S.wt[r].c) EXCEPT !.wt[r] = W0], WRef(r), NRef(k))
 
-DropP(S, p) == SetC(S, p.ref, UnlockC(p.res, GetC(S, p.ref), p.amt, p.ids))
+\* lock_amount / lock_non_fungibles without the checks of create_proof (the caller knows the lock is possible)
+LockRaw(r, c, n, ids) ==
+  IF IsF(r) THEN [c EXCEPT !.liq = @ - Max0(n - LkMax(c)), !.lka = BagAdd(@, n)]
+  ELSE [c EXCEPT !.ids = @ \ ids, !.lki = BagAddAll(@, ids)]
+\* dropping a proof unlocks every entry of its evidence; cloning locks every entry again
+RECURSIVE DropEv(_, _, _)
+DropEv(S, p, j) == IF j > Len(p.ev) THEN S
+                   ELSE LET e == p.ev[j]
+                            S1 == SetC(S, e.ref, UnlockC(p.res, GetC(S, e.ref), e.amt, e.ids))
+                        IN DropEv(S1, p, j + 1)
+DropP(S, p) == DropEv(S, p, 1)
+RECURSIVE LockEv(_, _, _)
+LockEv(S, p, j) == IF j > Len(p.ev) THEN S
+                   ELSE LET e == p.ev[j]
+                            S1 == SetC(S, e.ref, LockRaw(p.res, GetC(S, e.ref), e.amt, e.ids))
+                        IN LockEv(S1, p, j + 1)
 RECURSIVE DropNamed(_, _)
 DropNamed(S, i) == IF i > Len(S.np) THEN S
                    ELSE LET S1 == IF S.np[i].live THEN [DropP(S, S.np[i].p) EXCEPT !.np[i] = GoneP] ELSE S
@@ -290,14 +310,14 @@ ProofFromAccount(S, a, r, n, ids) ==
   ELSE LET l == TryLock(r, S.vault[a][r], n, ids)
        IN IF ~l.ok THEN Fl(S, l.err)
           ELSE [S EXCEPT !.vault[a][r] = l.c,
-                         !.az = Append(@, [res |-> r, amt |-> n, ids |-> ids, ref |-> VRef(a, r)])]
+                         !.az = Append(@, Plain(r, n, ids, VRef(a, r)))]
 ProofFromBucket(S, k, n, ids) ==
   IF ~S.nb[k].live THEN Fl(S, "BucketNotFound")
   ELSE LET r == S.nb[k].res
            l == TryLock(r, S.nb[k].c, n, ids)
        IN IF ~l.ok THEN Fl(S, l.err)
           ELSE [S EXCEPT !.nb[k].c = l.c,
-                         !.np = Append(@, [live |-> TRUE, p |-> [res |-> r, amt |-> n, ids |-> ids, ref |-> NRef(k)]])]
+                         !.np = Append(@, [live |-> TRUE, p |-> Plain(r, n, ids, NRef(k))])]
 ProofFromBucketAll(S, k) ==
   IF ~S.nb[k].live THEN Fl(S, "BucketNotFound")
   ELSE ProofFromBucket(S, k, IF IsF(S.nb[k].res) THEN Total(S.nb[k].res, S.nb[k].c) ELSE 0,
@@ -311,12 +331,62 @@ PushToAuthZone(S, k) ==
   ELSE [S EXCEPT !.az = Append(@, S.np[k].p), !.np[k] = GoneP]
 CloneProof(S, k) ==
   IF ~S.np[k].live THEN Fl(S, "ProofNotFound")
-  ELSE LET p == S.np[k].p
-           l == TryLock(p.res, GetC(S, p.ref), p.amt, p.ids)          \* the same amount again: never takes from liquid
-       IN [SetC(S, p.ref, l.c) EXCEPT !.np = Append(@, [live |-> TRUE, p |-> p])]
+  ELSE LET p == S.np[k].p                                               \* the same amounts again: never takes from liquid
+       IN [LockEv(S, p, 1) EXCEPT !.np = Append(@, [live |-> TRUE, p |-> p])]
 DropProof(S, k) ==
   IF ~S.np[k].live THEN Fl(S, "ProofNotFound")
   ELSE [DropP(S, S.np[k].p) EXCEPT !.np[k] = GoneP]
+
+\* ---- proofs composed by the auth zone (auth_zone_composition.rs).  Base proofs = the proofs in the zone of that resource.
+\* Available = per container the MAX amount (union of ids) any base proof locked there, summed over the containers.
+\* The walk visits the zone's proofs in order; it reads EVERY visited proof as a proof of the requested kind (a proof of
+\* the other kind makes the native code trap); each container is locked once, up to its quota, until nothing remains.
+ZoneEntries(S) ==      \* the zone flattened: per proof an "open" marker followed by its evidence entries
+  LET RECURSIVE ZFl(_)
+      ZFl(i) == IF i > Len(S.az) THEN <<>>
+               ELSE LET rest == ZFl(i + 1)
+                    IN <<[t |-> "o", res |-> S.az[i].res, e |-> EvE(NoRef, 0, {})]>>
+                       \o [j \in DOMAIN S.az[i].ev |-> [t |-> "e", res |-> S.az[i].res, e |-> S.az[i].ev[j]]] \o rest
+  IN ZFl(1)
+BaseEntries(S, r) == {x.e : x \in {y \in {ZoneEntries(S)[i] : i \in DOMAIN ZoneEntries(S)} : y.t = "e" /\ y.res = r}}
+QuotaRefs(S, r) == {e.ref : e \in BaseEntries(S, r)}
+QuotaAmt(S, r, ref) == MaxSet({e.amt : e \in {x \in BaseEntries(S, r) : x.ref = ref}})
+QuotaIds(S, r, ref) == UNION {e.ids : e \in {x \in BaseEntries(S, r) : x.ref = ref}}
+RECURSIVE ComposeWalk(_, _, _, _)
+\* W = [S, rem (amount), remi (ids), vis (containers done), ev, trap]
+ComposeWalk(W, r, z, i) ==
+  IF i > Len(z) THEN W
+  ELSE LET x == z[i]
+       IN IF x.t = "o"
+          THEN IF IsF(x.res) # IsF(r) THEN [W EXCEPT !.trap = TRUE]          \* decoded as the wrong kind of proof
+               ELSE ComposeWalk(W, r, z, i + 1)
+          ELSE IF (IsF(r) /\ W.rem = 0) \/ (~IsF(r) /\ W.remi = {}) THEN W     \* break 'outer
+          ELSE IF x.res # r \/ x.e.ref \in W.vis THEN ComposeWalk(W, r, z, i + 1)
+          ELSE LET ref == x.e.ref
+                   n == IF IsF(r) THEN (IF W.rem < QuotaAmt(W.S, r, ref) THEN W.rem ELSE QuotaAmt(W.S, r, ref)) ELSE 0
+                   ids == IF IsF(r) THEN {} ELSE W.remi \cap QuotaIds(W.S, r, ref)
+                   W1 == [W EXCEPT !.S = SetC(W.S, ref, LockRaw(r, GetC(W.S, ref), n, ids)),
+                                   !.rem = @ - n, !.remi = @ \ ids, !.vis = @ \cup {ref},
+                                   !.ev = IF IsF(r) \/ ids # {} THEN Append(@, EvE(ref, n, ids)) ELSE @]
+               IN ComposeWalk(W1, r, z, i + 1)
+Compose(S, r, n, ids) ==
+  LET z == ZoneEntries(S)
+      W == ComposeWalk([S |-> S, rem |-> n, remi |-> ids, vis |-> {}, ev |-> <<>>, trap |-> FALSE], r, z, 1)
+  IN IF W.trap THEN Fl(S, "Trap")
+     ELSE IF (IsF(r) /\ n = 0) \/ (~IsF(r) /\ ids = {}) THEN Fl(S, "EmptyProofNotAllowed")
+     ELSE [W.S EXCEPT !.np = Append(@, [live |-> TRUE, p |-> [res |-> r, amt |-> n, ids |-> ids, ev |-> W.ev]])]
+RECURSIVE SumQ(_, _, _)
+SumQ(S, r, refs) == IF refs = {} THEN 0 ELSE LET x == CHOOSE y \in refs : TRUE IN LET rest == SumQ(S, r, refs \ {x}) IN QuotaAmt(S, r, x) + rest
+AzProofOfAmount(S, r, n) ==
+  IF n % Unit # 0 THEN Fl(S, "InvalidAmount")
+  ELSE IF n > SumQ(S, r, QuotaRefs(S, r)) THEN Fl(S, "InsufficientBaseProofs")
+  ELSE Compose(S, r, n, {})
+AzProofOfNF(S, r, ids) ==
+  IF ~(ids \subseteq UNION {QuotaIds(S, r, ref) : ref \in QuotaRefs(S, r)}) THEN Fl(S, "InsufficientBaseProofs")
+  ELSE Compose(S, r, 0, ids)
+AzProofOfAll(S, r) ==
+  IF IsF(r) THEN Compose(S, r, SumQ(S, r, QuotaRefs(S, r)), {})
+  ELSE Compose(S, r, 0, UNION {QuotaIds(S, r, ref) : ref \in QuotaRefs(S, r)})
 
 AssertContains(S, r, n) == IF WtTotal(S, r) < n THEN Fl(S, "AssertionFailed") ELSE S
 AssertAny(S, r) == IF WtTotal(S, r) = 0 THEN Fl(S, "AssertionFailed") ELSE S
@@ -359,6 +429,10 @@ Exec(S, i) ==
     [] i.op = "DropNamedProofs"  -> DropNamed(S, 1)
     [] i.op = "DropAuthZoneProofs" -> [DropAz(S) EXCEPT !.sigs = FALSE]
     [] i.op = "DropAuthZoneRegularProofs" -> DropAz(S)
+    [] i.op = "DropAuthZoneSignatureProofs" -> [S EXCEPT !.sigs = FALSE]
+    [] i.op = "AzProofOfAmount"  -> AzProofOfAmount(S, i.r, i.n)
+    [] i.op = "AzProofOfNF"      -> AzProofOfNF(S, i.r, i.ids)
+    [] i.op = "AzProofOfAll"     -> AzProofOfAll(S, i.r)
     [] i.op = "AssertContains"   -> AssertContains(S, i.r, i.n)
     [] i.op = "AssertAny"        -> AssertAny(S, i.r)
     [] i.op = "AssertNF"         -> AssertNF(S, i.r, i.ids)
@@ -416,7 +490,10 @@ CandOf(S, op) ==
        [] op = "PushToAuthZone" -> IF canZ THEN {I(op, "", "", 0, {}, k, "", 0) : k \in pfs} ELSE {}
        [] op = "CloneProof" -> IF canP THEN {I(op, "", "", 0, {}, k, "", 0) : k \in pfs} ELSE {}
        [] op = "DropProof" -> {I(op, "", "", 0, {}, k, "", 0) : k \in pfs}
-       [] op \in {"DropAllProofs", "DropNamedProofs", "DropAuthZoneProofs", "DropAuthZoneRegularProofs"} -> NoArg
+       [] op \in {"DropAllProofs", "DropNamedProofs", "DropAuthZoneProofs", "DropAuthZoneRegularProofs", "DropAuthZoneSignatureProofs"} -> NoArg
+       [] op = "AzProofOfAmount" -> IF canP THEN {I(op, "", r, n, {}, 0, "", 0) : r \in FRes, n \in AmtArgs} ELSE {}
+       [] op = "AzProofOfNF" -> IF canP THEN ResIds ELSE {}
+       [] op = "AzProofOfAll" -> IF canP THEN {I(op, "", r, 0, {}, 0, "", 0) : r \in Res} ELSE {}
        [] op = "AssertContains" -> {I(op, "", r, n, {}, 0, "", 0) : r \in Res, n \in AmtArgs}
        [] op = "AssertAny" -> {I(op, "", r, 0, {}, 0, "", 0) : r \in Res}
        [] op = "AssertNF" -> ResIds
@@ -498,6 +575,10 @@ IDropAllProofs == "DropAllProofs" \in Ops /\ \E ins \in CandOf(Cur, "DropAllProo
 IDropNamedProofs == "DropNamedProofs" \in Ops /\ \E ins \in CandOf(Cur, "DropNamedProofs") : Step(ins)
 IDropAuthZoneProofs == "DropAuthZoneProofs" \in Ops /\ \E ins \in CandOf(Cur, "DropAuthZoneProofs") : Step(ins)
 IDropAuthZoneRegularProofs == "DropAuthZoneRegularProofs" \in Ops /\ \E ins \in CandOf(Cur, "DropAuthZoneRegularProofs") : Step(ins)
+IDropAuthZoneSignatureProofs == "DropAuthZoneSignatureProofs" \in Ops /\ \E ins \in CandOf(Cur, "DropAuthZoneSignatureProofs") : Step(ins)
+IAzProofOfAmount == "AzProofOfAmount" \in Ops /\ \E ins \in CandOf(Cur, "AzProofOfAmount") : Step(ins)
+IAzProofOfNF == "AzProofOfNF" \in Ops /\ \E ins \in CandOf(Cur, "AzProofOfNF") : Step(ins)
+IAzProofOfAll == "AzProofOfAll" \in Ops /\ \E ins \in CandOf(Cur, "AzProofOfAll") : Step(ins)
 IAssertContains == "AssertContains" \in Ops /\ \E ins \in CandOf(Cur, "AssertContains") : Step(ins)
 IAssertAny == "AssertAny" \in Ops /\ \E ins \in CandOf(Cur, "AssertAny") : Step(ins)
 IAssertNF == "AssertNF" \in Ops /\ \E ins \in CandOf(Cur, "AssertNF") : Step(ins)
@@ -534,6 +615,7 @@ Next == \/ EndTx
         \/ IDropAuthZoneProofs
         \/ IDropAuthZoneRegularProofs
         \/ IAssertContains
+        \/ IDropAuthZoneSignatureProofs \/ IAzProofOfAmount \/ IAzProofOfNF \/ IAzProofOfAll
         \/ IAssertAny
         \/ IAssertNF
         \/ IUpdateNFData
@@ -612,26 +694,35 @@ UseAfterConsume ==
      /\ (LOp \in {"ReturnToWorktop", "Deposit", "Burn"} /\ last'.ok => ~nb'[LIn.k].live)]_vars
 
 \* ---- C10: funds behind a live proof stay where they are
-NAmt(ref, n) == Cardinality({i \in DOMAIN np : np[i].live /\ np[i].p.ref = ref /\ IsF(np[i].p.res) /\ np[i].p.amt = n})
-                + Cardinality({i \in DOMAIN az : az[i].ref = ref /\ IsF(az[i].res) /\ az[i].amt = n})
-NId(ref, x) == Cardinality({i \in DOMAIN np : np[i].live /\ np[i].p.ref = ref /\ x \in np[i].p.ids})
-               + Cardinality({i \in DOMAIN az : az[i].ref = ref /\ x \in az[i].ids})
-LocksMatchProofs ==     \* the locks of a container are exactly the live proofs on it
+\* number of evidence entries of live proofs (named or in the zone; plain, cloned or composed) on a container
+EntriesOf(p) == {<<j, p.ev[j]>> : j \in DOMAIN p.ev}
+LiveP == [i \in {j \in DOMAIN np : np[j].live} |-> np[i].p]
+NEntries(ref, test(_, _)) ==
+  SetSum([i \in DOMAIN LiveP |-> Cardinality({x \in EntriesOf(LiveP[i]) : x[2].ref = ref /\ test(LiveP[i], x[2])})], DOMAIN LiveP)
+  + SetSum([i \in DOMAIN az |-> Cardinality({x \in EntriesOf(az[i]) : x[2].ref = ref /\ test(az[i], x[2])})], DOMAIN az)
+LocksMatchProofs ==     \* the locks of a container are exactly the evidence entries of the live proofs on it
   \A ref \in Refs :
     LET c == GetC(Cur, ref)
-        ps == {p \in AllProofs : p.ref = ref}
-    IN /\ DOMAIN c.lka = {p.amt : p \in {q \in ps : IsF(q.res)}}
-       /\ \A n \in DOMAIN c.lka : c.lka[n] = NAmt(ref, n)
-       /\ DOMAIN c.lki = UNION {p.ids : p \in {q \in ps : ~IsF(q.res)}}
-       /\ \A x \in DOMAIN c.lki : c.lki[x] = NId(ref, x)
-ProofBacked ==          \* the proven amount / ids are in the container the proof names
+        es == {x[2] : x \in UNION {EntriesOf(p) : p \in AllProofs}}
+        fam == {e.amt : e \in {x \in es : x.ref = ref /\ x.ids = {} /\ x.amt > 0}}
+    IN /\ DOMAIN c.lka = fam
+       /\ \A n \in DOMAIN c.lka : LET t(p, e) == IsF(p.res) /\ e.amt = n IN c.lka[n] = NEntries(ref, t)
+       /\ DOMAIN c.lki = UNION {e.ids : e \in {x \in es : x.ref = ref}}
+       /\ \A x \in DOMAIN c.lki : LET t(p, e) == x \in e.ids IN c.lki[x] = NEntries(ref, t)
+RECURSIVE EvSum(_, _)
+EvSum(ev, j) == IF j > Len(ev) THEN 0 ELSE LET rest == EvSum(ev, j + 1) IN ev[j].amt + rest
+ProofBacked ==          \* what a live proof evidences is locked for it in the containers it names: it cannot leave them
   \A p \in AllProofs :
-    /\ p.ref \in Refs /\ ResOfRef(p.ref) = p.res
-    /\ IF IsF(p.res) THEN p.amt > 0 /\ p.amt <= Total(p.res, GetC(Cur, p.ref))
-       ELSE p.ids # {} /\ p.ids \subseteq AllIds(GetC(Cur, p.ref))
+    /\ \A j \in DOMAIN p.ev : p.ev[j].ref \in Refs /\ ResOfRef(p.ev[j].ref) = p.res
+    /\ IF IsF(p.res)
+       THEN /\ p.amt > 0 /\ EvSum(p.ev, 1) = p.amt                                  \* the evidence covers the whole claimed amount
+            /\ \A j \in DOMAIN p.ev : p.ev[j].amt > 0 /\ p.ev[j].amt <= LkMax(GetC(Cur, p.ev[j].ref))   \* and is inside the locked part
+            /\ \A j, k \in DOMAIN p.ev : j # k => p.ev[j].ref # p.ev[k].ref
+       ELSE /\ p.ids # {} /\ UNION {p.ev[j].ids : j \in DOMAIN p.ev} = p.ids
+            /\ \A j \in DOMAIN p.ev : p.ev[j].ids \subseteq LkIds(GetC(Cur, p.ev[j].ref))
 UnlockedIsLiquid == \A x \in Containers : ~IsLocked(x[2]) => Total(x[1], x[2]) = (IF IsF(x[1]) THEN x[2].liq ELSE Unit * Cardinality(x[2].ids))
 NoLocksOutsideTx == ~Running => \A a \in Accts, r \in Res : ~IsLocked(vault[a][r])
-LockOps == {"ProofOfAmount", "ProofOfNF", "BucketProofOfAmount", "BucketProofOfNF", "BucketProofOfAll", "PopFromAuthZone",
+LockOps == {"AzProofOfAmount", "AzProofOfNF", "AzProofOfAll", "DropAuthZoneSignatureProofs", "ProofOfAmount", "ProofOfNF", "BucketProofOfAmount", "BucketProofOfNF", "BucketProofOfAll", "PopFromAuthZone",
             "PushToAuthZone", "CloneProof", "DropProof", "DropAllProofs", "DropNamedProofs", "DropAuthZoneProofs", "DropAuthZoneRegularProofs"}
 TotalUnchangedByLocks ==    \* creating, cloning and dropping proofs moves funds between liquid and locked only
   [][(LOp \in LockOps /\ last'.ok) =>
@@ -650,7 +741,7 @@ OnlyLiquidLeaves ==     \* what leaves a vault comes out of its liquid part; the
      /\ (LOp \in LeaveOps /\ LIn.n > vault[LIn.a][LIn.r].liq) => ~last'.ok
      /\ (LOp \in LeaveNFOps /\ ~(LIn.ids \subseteq vault[LIn.a][LIn.r].ids)) => ~last'.ok]_vars
 DivisibilityState == \A x \in Containers : IsF(x[1]) => x[2].liq % Unit = 0 /\ \A n \in DOMAIN x[2].lka : n % Unit = 0
-AmountOps == {"Withdraw", "Mint", "BurnInAccount", "Recall", "ProofOfAmount", "BucketProofOfAmount", "TakeFromWorktop"}
+AmountOps == {"Withdraw", "Mint", "BurnInAccount", "Recall", "ProofOfAmount", "BucketProofOfAmount", "TakeFromWorktop", "AzProofOfAmount"}
 DivisibilityArgs == [][(LOp \in AmountOps /\ last'.ok) => LIn.n % Unit = 0]_vars
 
 \* ---- C43: non-fungible ids are never reused; data changes are restricted
